@@ -2,6 +2,7 @@ package main
 
 func init() {
 	regConsts("dvid", "Uncompressed", "Snappy", "Gzip", "LZ4", "JPEG", "NoChecksum", "CRC32")
+	regConsts("datastore", "repoKey") // metadata key class of the stored repos (the one metadata value that is enveloped)
 	regFunc("EncodeSerializationFormat", "dvid", "EncodeSerializationFormat")
 	regFunc("DecodeSerializationFormat", "dvid", "DecodeSerializationFormat")
 }
